@@ -17,6 +17,30 @@ CHECKS = {
         note="Trusted: Coq kernel, stdlib real/classical/funext axioms (via Flocq), translator py2coq + PyLib (validated against the "
              "running Python on all 33x33 code pairs each run), CastSem.v as the meaning of ONNX Cast (cross-checked against numpy).",
         technique="Rocq proof over auto-translated decision code + Flocq formats; translator correspondence by vm_compute"),
+
+    "C12": dict(
+        category="proof",
+        text="Proof: for every teq-respecting function of the plain export, every subset of flagged 4-D inputs/outputs and every input, "
+             "the flagged model fed NCHW versions returns the NCHW versions of the plain results and leaves unflagged positions untouched; "
+             "the permutation constants and which constant each adapter site passes to Transpose are read from the current source each run; "
+             "index validation accepts exactly duplicate-free in-range genuine integers (hand model tied to the code by differential run). "
+             "Optimizer preservation after folding is checked per program with ONNX Runtime over all flag subsets of 8 programs.",
+        design_ref="DESIGN.md section 4 C12",
+        note="Trusted: Coq kernel (theorems closed, no axioms); regen unit GenLayout (AST facts about _LayoutAdapter); Tensor.v's ONNX Transpose semantics; "
+             "the unoptimised real export is checked to carry exactly the modelled boundary transposes. The per-program ORT comparison after optimisation is exploration, not proof.",
+        technique="Rocq proof over tensors-as-index-functions with source-extracted permutations; structural tie on the real export; ORT sweep over flag subsets"),
+    "C06": dict(
+        category="proof",
+        text="Full proof of the four control-flow wiring schemes: Loop.v models ONNX Loop/If (with fuel; out-of-fuel and runtime fault are distinct outcomes) and JAX while_loop/scan/fori_loop/cond/switch, and Coq proves for EVERY trip count, sequence length (0 included), integer bound pair (upper<=lower included), predicate value and switch index that the Loop/If graph the plugins build returns JAX's final carry and stacked per-step outputs (incl. vmapped while with frozen lanes, two scanned arrays, length-only scan, 2-branch arity rejection). Validated tie: the scheme parameters are extracted from real exports of 25 programs each run and the assumed ONNX Loop/If semantics are evaluated inside Coq against onnxruntime.",
+        design_ref="DESIGN.md section 4 C06, appendix B.5",
+        note="Trusted: Coq kernel (no axioms); Loop.v's reading of the ONNX Loop/If spec (cross-checked each run against onnxruntime on 300 hand-built Loop runs + the steering sweep) and of the JAX docs; the ModelProto extractor in harness/c06.py. Not modelled: scan plumbing beyond the extracted parameters (dtype fix-up casts, axis-0 override/Expand/Pad and scatter-extent heuristics) and the lowering of bodies/conditions themselves (C01); these are only exercised by the sweep. Assumes trip count <= int64 max and no int32 wrap of lower+i.",
+        technique="Rocq proof by induction on the iteration count over Gallina models of ONNX Loop/If and the plugin wiring; fail-closed structural extraction of scheme parameters from exported ModelProtos; ORT-vs-eager-JAX steering sweep as validation and counterexample search"),
+    "C15": dict(
+        category="proof",
+        text="Proof about the modelled save/load logic (partial: the third-party writer is assumed): FileModes.v models jax2onnx's _save_model_proto (standard: spill >= threshold to <name>.data, nothing truncated/removed before writing, sidecar removed only if unreferenced AND empty; web: self-contained, sidecar removed) on top of an explicit assumed onnx writer variant (append/truncate, CWD-relative existence check on/off) and onnx.load's (location, offset, length) resolution. Coq proves by induction over unbounded histories of exports to one path (any mix of modes/sizes/CWDs, raising exports included, arbitrary prior directory) that the file loads bit-exactly to the last non-raising export, that web output is a single self-contained file, and that every external reference lies inside the region written by the last export; the full-strength 'load = last export' is REFUTED (FileExistsError when re-exporting from inside the output directory) and proved under the exact hypothesis 'the last export does not raise'.",
+        design_ref="DESIGN.md section 4 C15",
+        note="Trusted: Coq kernel (no axioms); ASSUMED onnx.save_model/onnx.load/protobuf round-trip behaviour, validated every run by Tie D (real to_onnx file exports over fixed+random histories with parameters 0.5 MiB..3 MiB on both sides of the effective 1 MiB-33 B threshold; file set, sidecar size, offsets/lengths, reload result compared inside Coq under 4 writer variants; installed onnx = append + CWD check). Real-code property check per step: proto == ir->proto == file reloaded, web file loads alone. Known finding: FileExistsError on standard re-export when CWD holds <basename>.data.",
+        technique="Rocq proof over a hand-written file-system model generic in the byte-string implementation + correspondence by vm_compute on real export histories + differential check of return modes with onnx/onnxruntime"),
 }
 
 NOT_YET = {}
